@@ -266,7 +266,12 @@ impl Monitor for C14 {
             let res: Result<Result<Ontology, String>, PanicInfo> = guard(|| {
                 let r: HpoTerm = src.hpo(*root).expect("root exists");
                 let ls: Vec<HpoTerm> = leaves.iter().map(|l| src.hpo(*l).expect("leaf exists")).collect();
-                src.sub_ontology(r, ls).map_err(|e| e.to_string())
+                // the leaves arrive as a Vec or through adaptors whose size_hint says "maybe nothing"
+                match (u64::from(*root) + leaves.len() as u64 + phase as u64) % 3 {
+                    0 => src.sub_ontology(r, ls).map_err(|e| e.to_string()),
+                    1 => src.sub_ontology(r, ls.into_iter().filter(|_| true)).map_err(|e| e.to_string()),
+                    _ => src.sub_ontology(r, ls.iter().filter_map(|t| Some(*t))).map_err(|e| e.to_string()),
+                }
             });
             let sub = match res {
                 Err(p) => {
